@@ -22,6 +22,7 @@ type c17MeasureParams struct {
 	CleanUS []int  `json:"clean_us"`
 	Kinds   []int  `json:"kinds"`
 	Mode    string `json:"mode"`
+	Conc    int    `json:"conc"`
 	Desc    string `json:"desc"`
 }
 
@@ -43,13 +44,18 @@ func init() {
 				nm = 120
 			}
 			for i := 0; i < nm; i++ {
-				p := c17MeasureParams{N: 6 + r.IntN(10), Tick: 2 + r.IntN(4), Mode: pick(r, "custom", "users", "constant")}
+				p := c17MeasureParams{N: 6 + r.IntN(10), Tick: 2 + r.IntN(4), Mode: pick(r, "custom", "users", "constant"), Conc: 1}
+				if i%4 == 3 {
+					// several workers: only the lower bounds apply (intervals on different workers overlap)
+					p.Conc = 2 + r.IntN(3)
+					p.N += 10
+				}
 				for k := 0; k < p.N; k++ {
 					p.BodyUS = append(p.BodyUS, 500+r.IntN(12000))
 					p.CleanUS = append(p.CleanUS, 15000+r.IntN(25000))
 					p.Kinds = append(p.Kinds, pick(r, engine.BPass, engine.BPass, engine.BFail, engine.BFailNow, engine.BRequire, engine.BPanicString, engine.BPanicError, engine.BFatal))
 				}
-				p.Desc = fmt.Sprintf("mode=%s n=%d tick=%d", p.Mode, p.N, p.Tick)
+				p.Desc = fmt.Sprintf("mode=%s n=%d tick=%d workers=%d", p.Mode, p.N, p.Tick, p.Conc)
 				cse := core.MkCase("C17", "measure", i, seed, p)
 				cse.Race = i%2 == 0
 				cse.Procs = pick(r, 1, 2, 16)
@@ -80,9 +86,9 @@ func c17Measure(c *core.Case, o *core.Outcome) {
 	var mu sync.Mutex
 	type rec struct {
 		body, clean time.Duration
-		fail        bool
+		fail, ran   bool
 	}
-	var recs []rec
+	recs := make([]rec, p.N)
 	scenario := func(t *f1testing.T) f1testing.RunFn {
 		return func(t *f1testing.T) {
 			id := int(engine.IDOf(t))
@@ -98,14 +104,14 @@ func c17Measure(c *core.Case, o *core.Outcome) {
 				time.Sleep(time.Duration(p.CleanUS[i]) * time.Microsecond)
 				ct = time.Since(c0)
 				mu.Lock()
-				recs[len(recs)-1].clean = ct
+				recs[i].clean = ct
 				mu.Unlock()
 			})
 			defer func() {
 				// the body's own clock stops before f1's can (deferred functions run before f1 regains control)
 				b := time.Since(t0)
 				mu.Lock()
-				recs = append(recs, rec{body: b, fail: engine.Fails(kind)})
+				recs[i] = rec{body: b, fail: engine.Fails(kind), ran: true}
 				mu.Unlock()
 			}()
 			spin(time.Duration(p.BodyUS[i]) * time.Microsecond)
@@ -115,11 +121,11 @@ func c17Measure(c *core.Case, o *core.Outcome) {
 	var spec engine.Spec
 	switch p.Mode {
 	case "users":
-		spec = engine.Spec{Mode: "users", Concurrency: 1, MaxDurationMS: 60000}
+		spec = engine.Spec{Mode: "users", Concurrency: max(p.Conc, 1), MaxDurationMS: 60000}
 	case "constant":
-		spec = engine.Spec{Mode: "constant", Rate: fmt.Sprintf("%d/20ms", p.Tick), Distribution: "none", Concurrency: 1, MaxDurationMS: 60000}
+		spec = engine.Spec{Mode: "constant", Rate: fmt.Sprintf("%d/20ms", p.Tick), Distribution: "none", Concurrency: max(p.Conc, 1), MaxDurationMS: 60000}
 	default:
-		spec = engine.Spec{Mode: "custom", CustomIntervalUS: 20000, CustomRates: []int{p.Tick}, Concurrency: 1, MaxDurationMS: 60000}
+		spec = engine.Spec{Mode: "custom", CustomIntervalUS: 20000, CustomRates: []int{p.Tick}, Concurrency: max(p.Conc, 1), MaxDurationMS: 60000}
 	}
 	spec.MaxIterations = uint64(p.N)
 	spec.IgnoreDropped = true
@@ -132,9 +138,11 @@ func c17Measure(c *core.Case, o *core.Outcome) {
 	}
 	mu.Lock()
 	defer mu.Unlock()
-	if len(recs) != p.N {
-		o.Inconc("only %d of %d iterations ran (%s)", len(recs), p.N, p.Desc)
-		return
+	for i := range recs {
+		if !recs[i].ran {
+			o.Inconc("iteration %d of %d did not run (%s)", i+1, p.N, p.Desc)
+			return
+		}
 	}
 	var sumBody [2]time.Duration
 	var minB, maxB [2]time.Duration
@@ -202,14 +210,14 @@ func c17Measure(c *core.Case, o *core.Outcome) {
 		recordedTotal += sums[names[k]]
 	}
 	// cleanups and queueing excluded: everything recorded plus all cleanup time must fit in the wall time
-	if time.Duration(recordedTotal)+sumClean > total {
+	if p.Conc <= 1 && time.Duration(recordedTotal)+sumClean > total {
 		o.Violate("measure-excludes:"+p.Desc, "recorded durations sum to %v and cleanups took %v, together more than the %v the whole run lasted on its single worker: recorded durations include cleanup or queueing time (%s)", time.Duration(recordedTotal), sumClean, total, p.Desc)
 		return
 	}
 	o.Events = int64(len(recs)) + int64(l.Len())
 	o.AddObs("measured_iterations", int64(len(recs)))
 	if cnt[0] > 0 && cnt[1] > 0 {
-		o.Sig("measure:mode=%s:tick=%d:procs=%d", p.Mode, p.Tick, c.Procs)
+		o.Sig("measure:mode=%s:tick=%d:workers=%d:procs=%d", p.Mode, p.Tick, p.Conc, c.Procs)
 	}
 	o.Sample = map[string]any{"case": p.Desc, "bodies_own_sum": (sumBody[0] + sumBody[1]).String(), "recorded_sum": time.Duration(recordedTotal).String(), "cleanup_sum": sumClean.String(), "run_wall": total.String()}
 }
